@@ -219,6 +219,11 @@ def check_supply_parametric(rep, crate):
                 if par is not None and par.get('k') == 'Call' and (par.get('callee') or '') in (
                         'fixed_point::search', 'fixed_point::search_with_offset', 'ros2::ecrts19::bound_response_time'):
                     ok = par['args'] and _is_path_to(par['args'][0], pid)
+                elif par is not None and par.get('k') == 'Call' and par.get('callee') and crate.body(par['callee']) is not None:
+                    # handed on to another function of the crate that is parametric in that argument itself
+                    # (one analysis delegating to another, a private helper)
+                    pos = [i for i, a_ in enumerate(par['args']) if _is_path_to(a_, pid)]
+                    ok = len(pos) == 1 and _parametric_in(crate, crate.body(par['callee']), pos[0], 0)
                 if not ok:
                     bad_uses.append(loc(node))
         if bad_uses:
@@ -226,6 +231,42 @@ def check_supply_parametric(rep, crate):
         else:
             rep.ok('PARAM', f'PARAM:{path}:uses', where, f'{n_uses} use(s) of the supply: only provided_service / service_time / first argument of search*', fn=path)
     return n
+
+
+def _parametric_in(crate, b, i, depth):
+    """parameter i of b is a `&S` with S a type parameter bounded by SupplyBound (+ ?Sized) only, and b uses it only through
+    SupplyBound's methods, search*, or by handing it on to a function for which the same holds"""
+    if depth > 3 or i >= len(b.params):
+        return False
+    inputs = b.raw.get('inputs', [])
+    tyname = (inputs[i] if i < len(inputs) else '').replace('&', '').strip()
+    if tyname not in b.raw.get('generics', []):
+        return False
+    bounds = [p for p in b.raw.get('preds', []) if f'<{tyname} as ' in p and 'TraitPredicate' in p]
+    if [p for p in bounds if 'supply::SupplyBound' not in p and 'Sized' not in p]:
+        return False
+    from .facts import pat_bindings
+    pid = None
+    for bd in pat_bindings(b.params[i]):
+        pid = bd['id']
+    for node in b.walk():
+        if node.get('k') == 'Path' and node.get('res') == 'Local' and node.get('id') == pid:
+            par = b.parent.get(id(node))
+            while par is not None and par.get('k') in ('AddrOf', 'DropTemps', 'Use') or (par is not None and par.get('k') == 'Unary' and par.get('op') == 'Deref'):
+                par = b.parent.get(id(par))
+            if par is None:
+                return False
+            if par.get('k') == 'MethodCall' and par.get('callee') in ('supply::SupplyBound::provided_service', 'supply::SupplyBound::service_time'):
+                continue
+            if par.get('k') == 'Call' and (par.get('callee') or '') in ('fixed_point::search', 'fixed_point::search_with_offset') \
+                    and par['args'] and _is_path_to(par['args'][0], pid):
+                continue
+            if par.get('k') == 'Call' and par.get('callee') and crate.body(par['callee']) is not None:
+                pos = [j for j, a_ in enumerate(par['args']) if _is_path_to(a_, pid)]
+                if len(pos) == 1 and _parametric_in(crate, crate.body(par['callee']), pos[0], depth + 1):
+                    continue
+            return False
+    return True
 
 
 def _is_path_to(e, pid):
